@@ -113,6 +113,15 @@ REC = [
     ("launch", "fn f(n) { launch f(n + 1); return 1; } %s"),
     ("mutual", "fn g(n) { return f(n + 1); } fn f(n) { return g(n + 1); } %s"),
     ("try_rec", "fn f(n) { try { return f(n + 1); } catch e { raise e; } } %s"),
+    # the function itself is the callback: closure and native frames alternate, the closure calls only ever see every second depth
+    ("each_direct", "fn g(x) { [1].iter().each(g); } fn f(n) { return g(1); } %s"),
+    ("map_direct", "fn g(x) { return [1].iter().map(g).list(); } fn f(n) { return g(1); } %s"),
+    ("filter_direct", "fn g(x) { return [1].iter().filter(g).list(); } fn f(n) { return g(1); } %s"),
+    ("sort_direct", "fn g(a, b) { return [3, 1, 2].sort(g).len(); } fn f(n) { return g(1, 2); } %s"),
+    ("reduce_direct", "fn g(a, x) { return [1].iter().reduce(0, g); } fn f(n) { return g(0, 1); } %s"),
+    ("call_direct", "fn g(x) { return g.call(x); } fn f(n) { return g(1); } %s"),
+    ("each_direct_odd", "fn g(x) { [1].iter().each(g); } fn h(n) { return g(1); } fn f(n) { return h(n); } %s"),
+    ("method_direct", "class R { m(x) { [1].iter().each(self.m); } } fn f(n) { return R().m(1); } %s"),
 ]
 REC_USE = [
     ("uncaught", "print('M'); f(0); print('done');"),
@@ -638,8 +647,7 @@ def attribute(spec, r, src):
     if k == "selfc" and c == "signal":
         return "KF-C16-nativerec"
     if k == "rec":
-        if spec[1].startswith("str_user_print/") and c == "signal":
-            return "KF-C16-nativerec"
+        # (recursion through user code and native callbacks was repaired by D58: no guard, only recursion inside natives stays open above)
         if spec[1].endswith("/caught_in_callback") and "increased roots" in p:
             return "KF-C16-roots"  # fixed: reported as a violation if it returns (fixed entries suppress nothing)
     return None
